@@ -429,6 +429,23 @@ func wcEmitFiles(sc *wcScen, ds *AnySource, pattern string, dirIdx int, projs ma
 	vEmit(side)
 }
 
+// wcGeom: row, column and array size of data stream i.  Every other scenario has a source of MIXED geometry (cards of
+// different size, channel groups of unequal length): the streams of the second half belong to an array with one more
+// row and its own column count.
+func wcGeom(sc *wcScen, i int) (row, col, nrows, ncols int) {
+	if sc.Nchan < 2 || (sc.Nchan+sc.Npre)%2 == 0 {
+		return i % sc.Rows, i / sc.Rows, sc.Rows, sc.Cols
+	}
+	half := sc.Nchan / 2
+	if i < half {
+		nc := (half + sc.Rows - 1) / sc.Rows
+		return i % sc.Rows, i / sc.Rows, sc.Rows, nc
+	}
+	j, nr := i-half, sc.Rows+1
+	nc := (sc.Nchan - half + nr - 1) / nr
+	return j % nr, j / nr, nr, nc
+}
+
 func wcRun(id int, sc *wcScen) {
 	base, err := os.MkdirTemp("", "verifwc")
 	if err != nil {
@@ -442,7 +459,8 @@ func wcRun(id int, sc *wcScen) {
 	ds.subframeDivisions = sc.SubDiv
 	ds.rowColCodes = make([]RowColCode, sc.Nchan)
 	for i := 0; i < sc.Nchan; i++ {
-		ds.rowColCodes[i] = rcCode(i%sc.Rows, i/sc.Rows, sc.Rows, sc.Cols)
+		r, c, nr, nc := wcGeom(sc, i)
+		ds.rowColCodes[i] = rcCode(r, c, nr, nc)
 		ds.subframeOffsets[i] = (i * 3) % sc.SubDiv
 		ds.chanNumbers[i] = 10 + i
 		ds.chanNames[i] = fmt.Sprintf("chan%d", 10+i)
@@ -479,7 +497,8 @@ func wcRun(id int, sc *wcScen) {
 		projs[c], bases[c] = p, b
 	}
 	for i := 0; i < sc.Nchan; i++ {
-		cm := vmap{"c": i, "name": ds.chanNames[i], "channum": ds.chanNumbers[i], "row": i % sc.Rows, "col": i / sc.Rows,
+		gr, gc, gnr, gnc := wcGeom(sc, i)
+		cm := vmap{"c": i, "name": ds.chanNames[i], "channum": ds.chanNumbers[i], "row": gr, "col": gc, "nrows": gnr, "ncols": gnc,
 			"suboff": ds.subframeOffsets[i], "hasproj": projs[i] != nil, "pcrc": 0, "bcrc": 0, "desc": ""}
 		if projs[i] != nil {
 			cm["pcrc"] = crc(wcMatBytes(projs[i]))
